@@ -534,7 +534,12 @@ func (s *controlledSelector) HandleBindingRequest(message *stun.Message, local, 
 			// candidate pair state to Failed, and set the checklist state to
 			// Failed.
 			pair.nominateOnBindingSuccess = true
-			pair.nominationValueOnBindingSuccess = nominationValue
+			if pending := pair.nominationValueOnBindingSuccess; nominationValue != nil ||
+				pending == nil || s.lastNomination == nil || *pending != *s.lastNomination {
+				// A plain nomination ranks below every nomination value: it must not erase
+				// a deferred renomination of this pair that is still the latest one accepted.
+				pair.nominationValueOnBindingSuccess = nominationValue
+			}
 		}
 	}
 
